@@ -174,6 +174,16 @@ Qed.
 Lemma c_all_reopen c pre split : c_all (c_reopen c pre split) = c_all c.
 Proof. reflexivity. Qed.
 
+(** on a file whose index is complete the repaired init writes nothing *)
+Lemma rebuild_index_noop fu f ixs icur start cnt :
+  start + cnt < fst (last_ix ixs) + h_interval (f_hdr f) ->
+  rebuild_index (S fu) f ixs icur start cnt = Ok (f, ixs, icur).
+Proof.
+  intros H. cbn [rebuild_index].
+  destruct (start + cnt <? fst (last_ix ixs) + h_interval (f_hdr f)) eqn:E; [|lia].
+  rewrite Bool.orb_true_r. reflexivity.
+Qed.
+
 Theorem init_conc c limit pre split :
   wfc c ->
   init (Some (c_file c)) limit (c_first c) pre split = Ok (conc (c_reopen c pre split)).
@@ -187,7 +197,10 @@ Proof.
   replace (65535 =? 0) with false by reflexivity.
   pose proof (wf_part c W) as Hpart.
   rewrite (scan_file_to_end c (concat (c_blocks c)) (c_part c) 65535); [|exact W|reflexivity|unfold nlen; lia].
-  cbn [res_bind f_hdr c_file h_interval].
+  cbn [res_bind].
+  rewrite rebuild_index_noop
+    by (unfold last_ix; rewrite last_ixs_of; cbn [fst c_file f_hdr h_interval]; unfold nlen in *; lia).
+  cbn [res_bind]. unfold init_finish. cbn [f_hdr c_file h_interval].
   replace (128 =? 0) with false by reflexivity.
   (* the state before last_term is recovered *)
   set (c0 := mkCst (c_first c) (c_blocks c) (c_part c) (c_z c) (c_flen c) (c_hterm c) (c_da c)
@@ -286,7 +299,10 @@ Proof.
   replace (65535 =? 0) with false by reflexivity.
   pose proof (scan_file_to_end (c_fresh limit start pre split) [] [] 65535 (start - start) W eq_refl) as Hs.
   rewrite frl_nil, N.add_0_r in Hs. rewrite Hs by (unfold nlen; cbn [length]; lia).
-  cbn [res_bind c_file f_hdr h_interval]. replace (128 =? 0) with false by reflexivity.
+  cbn [res_bind].
+  rewrite rebuild_index_noop
+    by (unfold last_ix; cbn [last fst c_file f_hdr h_interval]; unfold nlen; cbn [length]; lia).
+  cbn [res_bind]. unfold init_finish. cbn [c_file f_hdr h_interval]. replace (128 =? 0) with false by reflexivity.
   replace (start - start + nlen []) with 0 by (unfold nlen; cbn [length]; lia).
   replace (0 <? 0) with false by reflexivity.
   unfold set_split, conc, c_fresh, c_dcur, c_all.
